@@ -609,7 +609,7 @@ func (x *Explorer) maybeSample() {
 		return
 	}
 	n := x.Completed
-	if !(n == 1 || n == 7 || n == 50 || n%997 == 0) {
+	if !(n == 1 || n == 7 || n == 50 || n%997 == 0 || (x.ValWant > 2 && n%13 == 0)) {
 		return
 	}
 	if x.valCounter != nil && atomic.AddInt64(x.valCounter, 1) > int64(2*x.ValWant) {
